@@ -32,13 +32,19 @@ Admissible(fold, tab) ==
 ConcName(tab, n) == [k \in 1..Len(n) |-> tab[n[k]]]
 
 (* ---- one filesystem ------------------------------------------------------- *)
+\* A container may hold several entries whose names fold to the same name (two spellings, or one
+\* name stored twice), with different content.  Each entry carries its position i in the
+\* container's own order; THE LAST ONE WINS: it is the file of that name, in every backend.
 Having(fold, fs, n) == {f \in fs : Key(fold, f.n) = Key(fold, n)}
-Lookup(fold, fs, n) == {f.c : f \in Having(fold, fs, n)}
+Last(S) == CHOOSE f \in S : \A g \in S : g.i <= f.i
+IsWinner(fold, fs, f) == f = Last(Having(fold, fs, f.n))
+\* (kept as a set - empty or one content - so that "no such file" needs no extra value)
+Lookup(fold, fs, n) == IF Having(fold, fs, n) = {} THEN {} ELSE {Last(Having(fold, fs, n)).c}
 Exists(fold, fs, n) == Having(fold, fs, n) # {}
 \* the files located inside a folder: the folder's components are a prefix of the file's
 \* directory components; the empty folder holds everything
 InFolder(fold, folder, f) == IsPrefixSeq(Key(fold, folder), Key(fold, Dir(f.n)))
-Walk(fold, fs, folder) == {f \in fs : InFolder(fold, folder, f)}
+Walk(fold, fs, folder) == {f \in fs : InFolder(fold, folder, f) /\ IsWinner(fold, fs, f)}
 WalkKeys(fold, fs, folder) == {Key(fold, f.n) : f \in Walk(fold, fs, folder)}
 
 \* the directory filesystem is bound for exact-case names only: a spelling is "exact" for a
